@@ -162,6 +162,11 @@ func TrackRaces(on bool)               {}
 func Trace(msg string)                 { fmt.Println("VH-TRACE " + msg) }
 func SyncPoint()                       {}
 
+// SearchOnly declares a bug-hunting harness: exploration stops at the first verdict or after maxPaths
+// paths, and the run is reported as not exhaustive (used where a known finding makes an exhaustive
+// pass meaningless).
+func SearchOnly(maxPaths int) {}
+
 // Quiesce waits until the goroutines started by the code under test have run (natively: a pause).
 func Quiesce() { time.Sleep(300 * time.Millisecond) }
 
